@@ -167,8 +167,8 @@ CHECKS = {
         'absent tag, null cell, dangling reference and a step through a plain value are all "not found", a valid reference continues in the row whose id matches. '
         'Tied by (a) AST, generated Python source (character for character) and literal tuple of the model of the pyparsing grammar vs parse_filter / _generate_filter_in_python on every generated and on malformed texts, '
         '(b) the rows the extracted model selects vs grid.filter on grids of abstract valuations, with Python\'s comparison as the oracle. The search compares grid.filter with an independent evaluator over the generator\'s own AST.',
-   note='The grammar clause is proved too (C11_grammar): for every filter over presence atoms, of any size and nesting, the parser model inverts the printer - and binds tighter than or, both fold to the left over any number of operands, parentheses override, keywords only at word boundaries. '
-        'PARTIAL: that theorem covers has / not atoms with single-blank spacing; comparisons, multi-step paths and spacing variation rest on the tie (exhaustive ASTs with <= 2 connectives + random, each rendered with spacing / parenthesis variation). '
+   note='The grammar clause is proved too (C11_grammar): for every filter over presence atoms and comparison atoms (any of the six operators; literal a boolean, an unsigned digit run or ANY string in its escaped spelling), of any size and nesting, the parser model inverts the printer - and binds tighter than or, both fold to the left over any number of operands, parentheses override, keywords only at word boundaries. '
+        'PARTIAL: that theorem covers single-tag paths and single-blank spacing; other literal kinds, multi-step paths and spacing variation rest on the tie (exhaustive ASTs with <= 2 connectives + random, each rendered with spacing / parenthesis variation). '
         'The parser model covers numbers, quantities, strings, URIs, references, booleans, N, M, NA, INF, NaN; dates, times, coordinates, Bin, XStr, lists are exercised by the search only. CPython executing the generated source is trusted (the source text is compared). '
         'Python\'s comparison of two values is an oracle (C19 / C20 model parts of it). Null cells count as absent (fix 30fb0ca). Print Assumptions: closed under the global context.',
    technique='Coq compiler-correctness proof (induction over the AST, literal-tuple threading) + loop = filter/firstn lemma + source-text and row-selection correspondence + independent evaluator',
